@@ -533,22 +533,18 @@ hwloc_get_common_ancestor_obj (hwloc_topology_t topology __hwloc_attribute_unuse
 static __hwloc_inline hwloc_obj_t
 hwloc_get_common_ancestor_obj (hwloc_topology_t topology __hwloc_attribute_unused, hwloc_obj_t obj1, hwloc_obj_t obj2)
 {
-  /* the loop isn't so easy since intermediate ancestors may have
-   * different depth, causing us to alternate between using obj1->parent
-   * and obj2->parent. Also, even if at some point we find ancestors of
-   * of the same depth, their ancestors may have different depth again.
+  /* walk the ancestors of both objects instead of comparing their depths:
+   * special objects (memory, I/O, Misc) have negative depths that cannot be
+   * compared with the depths of normal objects, and intermediate ancestors
+   * may have any depth.
    */
-  while (obj1 != obj2) {
-    while (obj1->depth > obj2->depth)
-      obj1 = obj1->parent;
-    while (obj2->depth > obj1->depth)
-      obj2 = obj2->parent;
-    if (obj1 != obj2 && obj1->depth == obj2->depth) {
-      obj1 = obj1->parent;
-      obj2 = obj2->parent;
-    }
-  }
-  return obj1;
+  hwloc_obj_t a, b;
+  for(a = obj1; a; a = a->parent)
+    for(b = obj2; b; b = b->parent)
+      if (a == b)
+	return a;
+  /* cannot happen, the root object is an ancestor of everything */
+  return NULL;
 }
 
 /** \brief Returns true if \p obj is inside the subtree beginning with ancestor object \p subtree_root.
